@@ -1272,6 +1272,69 @@ def sub_pairs(case):
 
 
 # ---------------------------------------------------------------------------------------------
+def law_test(ctx, res):
+    """evaluates every law of CompatLaws and the hypothesis GridStable with the Float instance of the driver on tuples from the
+    region the generators draw (scales of C03_SCALES, grid indices up to 2^31, limits on and off the grid, values around the
+    limits and the clamping / tolerance bands) — a test of the trusted base, not a proof"""
+    rng = ctx.rng
+    f2b = dtcodec.f2bits
+    n = ctx.budget(4000, 60000)
+    tuples = []
+    cat = gen.FLOAT_CAT + [-0.0, 5e-324, -5e-324, 2.2250738585072014e-308, 16777216.0, 1e-7]
+    for _ in range(n):
+        r = rng.random()
+        rr = rng.choice([1.2e-7, 1.2e-7, 0.0, 0.01, 0.5])
+        ar = rng.choice([0.0, 0.0, 0.5, 1e-3, 1.0, 5e-324, 0.03])
+        if r < 0.55:
+            # the grid: a limit m on (or near) the grid of s, values around the limit and the clamping band
+            sc = rng.choice(C03_SCALES) if rng.random() < 0.8 else math.ldexp(rng.random() + 0.5, rng.randint(-20, 20))
+            k = draw_index(rng, sc, rng.choice([None, None, 'below', 'above'])) or 0
+            m = k * sc
+            if rng.random() < 0.25:
+                m += rng.choice([0.1, -0.3, 0.49, 0.5, -0.5]) * sc
+            x = m + rng.choice([0.0, 0.25, -0.25, 0.5, -0.5, 0.75, -0.75, 1.0, -1.0, 1.5, -1.5, 2.0, -2.0]) * sc
+            if rng.random() < 0.5:
+                x = math.nextafter(x, rng.choice([math.inf, -math.inf]))
+            y = x + rng.choice([0.0, 0.5, 1.0, 3.0]) * sc if rng.random() < 0.7 else rng.choice(cat)
+            s_ = sc
+        else:
+            # the tolerance band of a double: values around a limit by fractions / multiples of the tolerance
+            m = rng.choice(cat)
+            s_ = rng.choice(C03_SCALES)
+            base = m if rng.random() < 0.7 else rng.choice(cat)
+            prec = max(abs(base * rr), ar)
+            x = base + rng.choice([0.0, -0.5, -1.0, -1.0000001, -2.0, 0.5, 1.0, 1.0000001, 2.0]) * prec
+            if rng.random() < 0.4 and not math.isinf(x):
+                x = math.nextafter(x, rng.choice([math.inf, -math.inf]))
+            y = rng.choice([x, base, m, x + prec, x + 2 * prec, rng.choice(cat)])
+            # the grid laws are assumed for |grid index| <= 2^31 only (false where the scale is below the float spacing)
+            big = max([abs(v) for v in (m, x, y) if not math.isinf(v)] + [0.0])
+            s_ = max(s_, math.ldexp(big, -30)) if big > 0 else s_
+        if not x <= y:
+            x, y = y, x
+        lo, i, hi = sorted(rng.choice(gen.INT_CAT + [2 ** 70, -2 ** 70, 2 ** 64 + 1]) for _ in range(3))
+        if any(isinstance(v, float) and math.isnan(v) for v in (m, x, y)):
+            continue
+        tuples.append([f2b(float(m)), f2b(float(s_)), f2b(float(x)), f2b(float(y)), f2b(rr), f2b(ar), lo, i, hi])
+    ans = ctx.driver.batch([{'p': 'C03', 'k': 'laws', 'tuples': tuples[i:i + 2000]} for i in range(0, len(tuples), 2000)])
+    fails, k = {}, 0
+    for a in ans:
+        if 'driver_error' in a:
+            raise RuntimeError(f'driver error {a}')
+        for names in a['fail']:
+            for name in names:
+                fails.setdefault(name, tuples[k])
+            k += 1
+    res.count('float-law re-test (a test): tuples', len(tuples))
+    res.count('float-law re-test (a test): laws violated', len(fails))
+    res.notes.append(f'float-law re-test (a test, not a proof): the laws of CompatLaws and the hypothesis GridStable evaluated with the '
+                     f'Float instance on {len(tuples)} tuples from the region the generators draw (scales {len(C03_SCALES)} + random, '
+                     f'grid indices up to 2^31, limits on / off the grid, values around limits and bands): {len(fails)} laws violated')
+    for name, t in fails.items():
+        res.disagreements.append({'case': {'k': 'law', 'law': name, 'tuple': t}, 'model': 'law / hypothesis assumed for binary64',
+                                  'impl': 'fails on this tuple (bit patterns m, s, x, y, rr, ar; integers lo, i, hi)'})
+
+
 def load_corpus(ctx):
     cases = []
     cdir = os.path.join(ctx.verif, 'corpus', 'C03')
@@ -1677,6 +1740,9 @@ def run(ctx):
             continue
         cases.append(({'k': 'writable', 'value': b, 'target': a, 'mode': mode}, 'writable'))
 
+    # re-test of the additional float laws on the region drawn (a test of the trusted base, not a proof)
+    law_test(ctx, res)
+
     CH = 20000
     shrunk = 0
     for start in range(0, len(cases), CH):
@@ -1767,6 +1833,11 @@ def run(ctx):
 
 def replay(ctx, rp):
     case = rp['case']
+    if case.get('k') == 'law':
+        ans = ctx.driver.batch([{'p': 'C03', 'k': 'laws', 'tuples': [case['tuple']]}])[0]
+        print('law      :', case['law'], 'on (m, s, x, y, rr, ar) =', [bits2f(b) for b in case['tuple'][:6]], 'integers', case['tuple'][6:])
+        print('fails    :', ans['fail'][0])
+        return 1 if case['law'] in ans['fail'][0] else 0
     req, impl = req_of(case)
     ans = ctx.driver.batch([req])[0]
     print('case     :', json.dumps({k: v for k, v in case.items() if k not in ('probes', 'witnesses')})[:1500])
